@@ -69,9 +69,6 @@ theorem inv_cancel {s s' : St} (hi : Inv s) (hs : step s (.cancel) = some s') : 
 theorem inv_push {s s' : St} (hi : Inv s) (hs : step s (.push) = some s') : Inv s' := by
   inv_event s hi hs
 
-theorem inv_nRoot {s s' : St} (hi : Inv s) (hs : step s (.nRoot) = some s') : Inv s' := by
-  inv_event s hi hs
-
 theorem inv_nRun {s s' : St} (hi : Inv s) (hs : step s (.nRun) = some s') : Inv s' := by
   inv_event s hi hs
 
@@ -123,6 +120,11 @@ theorem inv_nLoadReq {s s' : St} {j c : Bool} (hi : Inv s) (hs : step s (.nLoadR
   obtain ⟨h1, h2, h3, h4, h5, h6, h7, h8, h9⟩ := hi
   cases j <;> cases c <;> cases hn : s.npc <;> simp [step, hn] at hs <;> obtain ⟨⟨hj, hc⟩, hs⟩ := hs <;> subst hs <;>
     inv_close s
+
+theorem inv_nRoot {s s' : St} {c : Bool} (hi : Inv s) (hs : step s (.nRoot c) = some s') : Inv s' := by
+  have hf := facts_of hi
+  obtain ⟨h1, h2, h3, h4, h5, h6, h7, h8, h9⟩ := hi
+  cases c <;> cases hn : s.npc <;> simp [step, hn] at hs <;> obtain ⟨hg, hs⟩ := hs <;> subst hs <;> inv_close s
 
 theorem inv_nSetFin {s s' : St} (hi : Inv s) (hs : step s .nSetFin = some s') : Inv s' := by
   have hf := facts_of hi
